@@ -58,6 +58,7 @@ type Run struct {
 	traces      int64
 	configs     []string
 	Rule        string
+	sigCount    map[string]int
 }
 
 // Start begins a run; tier and seed come from the command line / environment.
@@ -108,7 +109,12 @@ func (r *Run) Violation(sig, msg string, replay interface{}) {
 		}
 	}
 	r.violations++
-	if r.violations > 20 {
+	if r.sigCount == nil {
+		r.sigCount = map[string]int{}
+	}
+	r.sigCount[sig]++
+	// every new kind of failure is shown (and gets a replay file); repetitions of a kind only three times
+	if r.sigCount[sig] > 3 || len(r.sigCount) > 60 {
 		return
 	}
 	b, _ := json.MarshalIndent(map[string]interface{}{"property": r.Prop, "signature": sig,
@@ -271,6 +277,9 @@ func (r *Run) write(rule string) bool {
 	}
 	sort.Strings(khs)
 	cov["known_findings_hit"] = khs
+	if len(r.sigCount) > 0 {
+		cov["violation_signatures"] = r.sigCount
+	}
 	samples := r.samples
 	if len(samples) == 0 {
 		samples = []interface{}{"no sample recorded yet"}
